@@ -30,7 +30,7 @@ class Harness(Ctx):
         """current (possibly already written) value of array element, unwidened"""
         return z3.Select(self.final_arr(name), bv64(i))
 
-    def kcall(self, cname, args):
+    def kcall(self, cname, args, void=False):
         """args: 'scalarname' | ('buf', arr) | ('elem', arr, idx) | ('const', ctype, value) | ('ptrs', ctype, [arrs])"""
         zargs, dargs = [], []
         for a in args:
@@ -50,7 +50,9 @@ class Harness(Ctx):
                 dargs.append(('ptrs', a[1], list(a[2])))
             else:
                 raise ValueError(a)
-        self.calls.append(dict(cname=cname, args=dargs))
+        self.calls.append(dict(cname=cname, args=dargs, void=void))
+        if void:
+            return self.call_void(cname, zargs)
         return self.call(cname, zargs)
 
 
@@ -153,7 +155,7 @@ def native_run(h, model, maxcap=64):
                 args.append(('lit', ctype, inputs['scalars'][d[1]]))
             else:
                 args.append(d)
-        calls.append(dict(cname=c['cname'], args=args))
+        calls.append(dict(cname=c['cname'], args=args, void=c.get('void', False)))
     nat = native.run_calls(calls, bufs)
     return inputs, nat
 
